@@ -27,12 +27,12 @@ def chk(pid, text, ref, technique, note):
       "level_note": note,
       "technique": technique,
     })
-chk("C16", "Seeded search over build-farm histories: source trees drift by accumulated token/line edits, files of the import closure are deleted, torn (prefix saves), replaced by directories/dangling links/symlink loops, fail to read, or change between two reads of one compilation, in warm compiler workers; every build must end in output or located, renderable errors. Evidence, not proof.", "DESIGN.md 3.5, 5 (C16)", "deterministic simulation of a build farm with disk-fault injection (seeded scheduler over real compiler processes)", A_NOTE)
-chk("C17", "Seeded search over worker hash seeds, worker histories, crashes/restarts, repetition, import-directory permutations/duplicates and one-vs-two-process pipelines: every execution of a job must be byte-identical to the same job in a fresh PYTHONHASHSEED=0 process (anonymous identifiers up to numbering on warm workers). Evidence, not proof.", "DESIGN.md 3.3, 5 (C17)", "deterministic simulation of a build farm: same job replayed across seeded process histories and configurations, compared with a fresh-process oracle", A_NOTE)
+chk("C16", "Seeded search over build-farm histories: every entry of a tree (error catalogue, corpus, parser error examples, token soup, typed semantic soup with a few drawn flaws, valid import graphs, World B modules, random derivations of the real grammar) is built once pristine, then the tree drifts by accumulated token/line edits, files of the import closure are deleted, torn (prefix saves), replaced by directories/dangling links/symlink loops, fail to read, or change between two reads of one compilation, in warm compiler workers and in a sample of cold embossc processes; every build must end (CPU-time cap) in output or located, renderable errors whose positions lie inside the files named, for the library entry points and for the command-line programs. Evidence, not proof.", "DESIGN.md 3.5, 5 (C16)", "deterministic simulation of a build farm with disk-fault injection (seeded scheduler over real compiler processes)", A_NOTE)
+chk("C17", "Seeded search over worker hash seeds, worker histories, crashes/restarts, repetition, import-directory permutations/duplicates, one-vs-two-process pipelines and a sample of cold embossc processes: every execution of a job must be byte-identical to the same job in a fresh PYTHONHASHSEED=0 process (anonymous identifiers up to numbering on warm workers). Evidence, not proof.", "DESIGN.md 3.3, 5 (C17)", "deterministic simulation of a build farm: same job replayed across seeded process histories and configurations, compared with a fresh-process oracle", A_NOTE)
 chk("C18", "Durability reading: the JSON file is the only state crossing the process boundary. For every accepted build the IR is round-tripped in-process and the back end is run in a different worker (other hash seed/history, possibly just restarted) from the JSON alone; headers and re-serialisations must agree with the in-process pipeline and with embossc. Evidence, not proof.", "DESIGN.md 3.4, 5 (C18)", "deterministic simulation of a split build pipeline across seeded worker processes with crash/restart between the halves", A_NOTE)
 B_NOTE = "Trusted: the reference model (worldb/model.py, model2.py), written from the documents and corrected against them where the documents are silent (DESIGN.md section 8); clang 14 sanitizers; x86-64 only. Sampling, not enumeration (the prefix-length axis of a message is enumerated in the thorough tier)."
-chk("C01", "Seeded simulation of a receiver framing messages from a byte stream: generated protocol modules (swarm-varied features) are compiled by the real compiler, and after every delivery (arbitrary chunking, truncation, bit flips, garbage, oversize, odd alignment) the full observation of the generated view is compared with an independent reference model; everything reported as known from a prefix must persist in longer prefixes; a valid message must end Ok and complete. Evidence, not proof.", "DESIGN.md 4, 5 (C01)", "deterministic simulation of a byte link with fault injection; reference model as oracle; history (prefix-monotonicity) check", B_NOTE)
-chk("C03", "Seeded operation histories on a sender's shared buffer (valid, truncated, flipped, oversized): CouldWriteValue/TryToWrite of boundary values through physical fields, array elements, nested fields, aliases and +/- transforms are compared with the model's verdict, the arena bytes after every write with the model's arena, and the follow-up observation with the model. Evidence, not proof.", "DESIGN.md 4, 5 (C03)", "deterministic simulation: seeded write histories on shared buffers with truncation/corruption faults; reference model as oracle", B_NOTE)
+chk("C01", "Seeded simulation of a receiver framing messages from a byte stream: generated protocol modules (swarm-varied features incl. inline types, scoped $default, parameters, dynamic nested structures, arrays in bits, modules split over an import) are compiled by the real compiler, and after every delivery (arbitrary chunking, truncation, bit flips, garbage, oversize, odd alignment) the full observation of the generated view is compared with an independent reference model; everything reported as known from a prefix must persist in longer prefixes; a valid message must end Ok and complete; IntrinsicSizeIn*/MinSizeIn*/MaxSizeIn* must agree with and bound every reported size; observations through MakeAligned<Name>View on truly aligned buffers must be the same. Evidence, not proof.", "DESIGN.md 4, 5, 11.2 (C01)", "deterministic simulation of a byte link with fault injection; reference model as oracle; history (prefix-monotonicity) check", B_NOTE)
+chk("C03", "Seeded operation histories on a sender's shared buffer (valid, truncated, flipped, oversized): CouldWriteValue/TryToWrite of boundary values through physical fields (integers, Bcd, flags, enums, floats bit for bit), array elements, nested fields, aliases and +/- transforms (with and without their own [requires]) are compared with the model's verdict, the arena bytes after every write with the model's arena, and the follow-up observation with the model. Evidence, not proof.", "DESIGN.md 4, 5 (C03)", "deterministic simulation: seeded write histories on shared buffers with truncation/corruption faults; reference model as oracle", B_NOTE)
 chk("C04", "Fault-driven: every scenario kind (streams, writes, copies, compares, text dump/restore, null views) on hostile buffers (random length and content, truncated, flipped, misaligned) with every buffer an exact ASan-poisoned extent; oracle = no AddressSanitizer/UBSan report and no runtime CHECK abort in the driver process. Evidence, not proof.", "DESIGN.md 4, 5 (C04)", "deterministic simulation with fault injection; sanitizer-instrumented real code as oracle", B_NOTE)
 chk("C06", "Snapshot/restore over a faultable text channel: WriteToString in every re-readable option set -> channel (fault-free, or EOF/dropped/duplicated/changed character) -> UpdateFromText into a zeroed buffer; fault-free restores must succeed and every emitted field must read back equal (and Equals when nothing is skipped); independently generated literal texts in the documented format must restore to the model's bytes; out-of-range or malformed numbers must be rejected. Evidence, not proof.", "DESIGN.md 4, 5 (C06)", "deterministic simulation of a text channel with fault injection; round-trip and reference-model oracles", B_NOTE)
 chk("C20", "Receiver-side history over arenas: frames copied into slots of every relative size, overlapping copies in both directions (compaction), compares of frames that differ in covered bits, only in padding, in presence pattern or in length; TryToCopyFrom result, destination and source bytes after the copy (memmove semantics, untouched bytes) and Equals (both directions) are compared with the model. Evidence, not proof.", "DESIGN.md 4, 5 (C20)", "deterministic simulation: seeded copy/compare histories over shared and overlapping buffers; reference model as oracle", B_NOTE)
